@@ -97,6 +97,53 @@ KERNELS += [
                 (r"std::abs\(", "K_abs_int(", 1)]),
 ]
 
+
+CYL_INL = "src/include/stir/ProjDataInfoCylindrical.inl"
+CYL_CXX = "src/buildblock/ProjDataInfoCylindrical.cxx"
+CYL = "ProjDataInfoCylindrical::"
+SEGACC = [(r"get_(min|max)_ring_difference\(([^()]*(?:\(\))?)\)", r"SEGV(self, \1_ring_diff, \2)", None),
+          (r"get_(min|max)_segment_num\(\)", r"self->\1_seg", None),
+          (r"(?<![\w>.])(min|max)_ring_diff\[(\w+)\]", r"SEGV(self, \1_ring_diff, \2)", None),
+          (r"get_scanner_ptr\(\)->get_num_rings\(\)", "self->num_rings", None),
+          (r"(?<![\w>.])sampling_corresponds_to_physical_rings\b", "self->sampling_corresponds_to_physical_rings", None),
+          (r"this->initialise_ring_diff_arrays_if_not_done_yet\(\);", "K_init_ring_diff_arrays_if_not_done_yet(self); K_RETURN_IF_ERROR(K_ERRVAL);", None),
+          (r"Succeeded::yes", "1", None), (r"Succeeded::no", "0", None)]
+KERNELS += [
+    dict(name="K_get_num_axial_poss_per_ring_inc", file=CYL_INL, cxx_name=CYL + "get_num_axial_poss_per_ring_inc",
+         func=CYL + r"get_num_axial_poss_per_ring_inc\(const int segment_num\) const",
+         c_header="int K_get_num_axial_poss_per_ring_inc(const struct PDI2* self, const int segment_num)", loops=0, rules=SEGACC),
+    dict(name="K_get_segment_num_for_ring_difference", file=CYL_INL, cxx_name=CYL + "get_segment_num_for_ring_difference",
+         func=CYL + r"get_segment_num_for_ring_difference\(int& segment_num, const int ring_diff\) const",
+         c_header="int K_get_segment_num_for_ring_difference(struct PDI2* self, int* segment_num, const int ring_diff)", loops=0,
+         pre="#define K_ERRVAL 0",
+         post="#undef K_ERRVAL",
+         rules=[(r"segment_num = ring_diff_to_segment_num\[ring_diff\];", "*segment_num = RD2SEG_READ(self, ring_diff);", 1),
+                (r"if \(segment_num <= ", "if (*segment_num <= ", 1)] + SEGACC),
+    dict(name="K_get_segment_axial_pos_num_for_ring_pair", file=CYL_INL, cxx_name=CYL + "get_segment_axial_pos_num_for_ring_pair",
+         func=CYL + r"get_segment_axial_pos_num_for_ring_pair\(int& segment_num,\s*int& ax_pos_num,\s*const int ring1,\s*const int ring2\) const",
+         c_header="int K_get_segment_axial_pos_num_for_ring_pair(struct PDI2* self, int* segment_num, int* ax_pos_num, const int ring1, const int ring2)", loops=0,
+         rules=[(r"if \(get_segment_num_for_ring_difference\(segment_num, ring2 - ring1\) == Succeeded::no\)",
+                 "const int K_found = K_get_segment_num_for_ring_difference(self, segment_num, ring2 - ring1); K_RETURN_IF_ERROR(0); if (K_found == 0)", 1),
+                (r"ax_pos_num = \(ring1 \+ ring2 - ax_pos_num_offset\[segment_num\]\) \* get_num_axial_poss_per_ring_inc\(segment_num\) / 2;",
+                 "*ax_pos_num = (ring1 + ring2 - SEGV(self, ax_pos_num_offset, *segment_num)) * K_get_num_axial_poss_per_ring_inc(self, *segment_num) / 2;", 1)] + SEGACC),
+    dict(name="K_compute_segment_axial_pos_to_ring_pair", file=CYL_CXX, cxx_name=CYL + "compute_segment_axial_pos_to_ring_pair",
+         func=CYL + r"compute_segment_axial_pos_to_ring_pair\(const int segment_num, const int axial_pos_num\) const",
+         c_header="void K_compute_segment_axial_pos_to_ring_pair(const struct PDI2* self, const int segment_num, const int axial_pos_num)", loops=1,
+         rules=[(r"shared_ptr<RingNumPairs> new_el\(new RingNumPairs\);", "", 1),
+                (r"segment_axial_pos_to_ring_pair\[segment_num\]\[axial_pos_num\] = new_el;", "", 1),
+                (r"RingNumPairs& table = \*segment_axial_pos_to_ring_pair\[segment_num\]\[axial_pos_num\];", "", 1),
+                (r"table\.reserve\(([^;]*)\);", r"RP_RESERVE(\1);", 1),
+                (r"table\.push_back\(pair<int, int>\((\w+), (\w+)\)\);", r"RP_PUSH(\1, \2);", 1),
+                (r"segment_axial_pos_to_ring1_plus_ring2\[segment_num\]\[axial_pos_num\]", "RPR_READ(self, segment_num, axial_pos_num)", 1)] + SEGACC),
+    dict(name="K_get_ring_pair_for_segment_axial_pos_num", file=CYL_CXX, cxx_name=CYL + "get_ring_pair_for_segment_axial_pos_num",
+         func=CYL + r"get_ring_pair_for_segment_axial_pos_num\(int& ring1,\s*int& ring2,\s*const int segment_num,\s*const int axial_pos_num\) const",
+         c_header="void K_get_ring_pair_for_segment_axial_pos_num(struct PDI2* self, int* ring1, int* ring2, const int segment_num, const int axial_pos_num)", loops=0,
+         pre="#define K_ERRVAL", post="#undef K_ERRVAL",
+         rules=[(r'error\("ProjDataInfoCylindrical::get_ring_pair_for_segment_axial_pos_num does not work[^;]*;', "K_THROW_VOID;", 2),
+                (r"segment_axial_pos_to_ring1_plus_ring2\[segment_num\]\[axial_pos_num\]", "RPR_READ(self, segment_num, axial_pos_num)", 1),
+                (r"(?<![\w.>*])ring([12]) = ", r"*ring\1 = ", 2)] + SEGACC),
+]
+
 TOF_MASH = {"quick": [0, 1, 2, 3, 5, 7, 11, 13, 25, 27], "thorough": [0] + list(range(1, 65)) + [117, 351, 1023]}
 CHK = ["--signed-overflow-check", "--div-by-zero-check", "--bounds-check", "--pointer-check", "--conversion-check"]
 
@@ -172,6 +219,17 @@ def jobs(tier, gen_dir):
                        kernels=["K_get_det_pos_pair_for_bin", "K_get_bin_for_det_pos_pair"], flags=CHK, no_base_flags=True,
                        replace=["K_get_det_pos_pair_for_bin", "K_get_bin_for_det_pos_pair"], defines={"C01_N": N},
                        params={"num_detectors_per_ring": N}, min_obligations=4, timeout=300, backend="kissat"))
+    RING = [("K_get_num_axial_poss_per_ring_inc", [], False),
+            ("K_get_segment_num_for_ring_difference", ["RD2SEG_READ", "K_init_ring_diff_arrays_if_not_done_yet"], False),
+            ("K_get_segment_axial_pos_num_for_ring_pair", ["K_get_segment_num_for_ring_difference", "K_get_num_axial_poss_per_ring_inc"], False),
+            ("K_compute_segment_axial_pos_to_ring_pair", ["RPR_READ"], True),
+            ("K_get_ring_pair_for_segment_axial_pos_num", ["RPR_READ", "K_init_ring_diff_arrays_if_not_done_yet"], False)]
+    for k, repl, lc in RING:
+        enforce(k, lc=lc, repl=repl, defines={"C01_N": 16})
+    for lem in ("ring_partition", "ring_inverse"):
+        out.append(Job("c01/lemma_" + lem, HARNESS, "h_lemma_" + lem, kind="lemma", kernels=[], flags=CHK, no_base_flags=True,
+                       replace=["K_get_segment_axial_pos_num_for_ring_pair", "K_get_ring_pair_for_segment_axial_pos_num"], defines={"C01_N": 16},
+                       min_obligations=2, timeout=300, backend="kissat"))
     # TOF mashing factor: constant per job (float division by a constant), every other input symbolic
     for F in TOF_MASH[tier]:
         enforce("K_get_bin_for_det_pos_pair", "/N=16/F=%d" % F, lc=False, repl=["K_get_bin_for_det_pair"], defines={"C01_N": 16, "C01_F": F},
